@@ -3,6 +3,7 @@ package main
 // Evaluation of contract expressions to SMT terms.
 
 import (
+	"sort"
 	"fmt"
 	"go/ast"
 	"go/token"
@@ -1092,6 +1093,32 @@ func (c *Ctx) evalCall(e *Expr, env *Env) *Val {
 			return nil
 		}
 		return &Val{K: VScalar, T: boolT, S: c.provMatches(x, e.Args[1].Name)}
+	case "boundTo":
+		// boundTo(f, "function pattern"): the function value f was made (MakeClosure) from a
+		// function whose short name matches: a method value x.M is "(T).M$bound", a function
+		// literal "F$1". Decided from where the value was created, it survives being stored
+		// in a slice or a struct and loaded back.
+		x := arg(0)
+		if x == nil || len(e.Args) < 2 || e.Args[1].Op != "str" {
+			c.specErr("boundTo(value, \"function pattern\")")
+			return nil
+		}
+		c.declareFun("closurefn", []string{"Int"}, "Int")
+		var alts []string
+		var names []string
+		for n := range c.provIDs {
+			names = append(names, n)
+		}
+		sort.Strings(names)
+		for _, n := range names {
+			if strings.HasPrefix(n, "closure:") && matchAny([]string{e.Args[1].Name}, strings.TrimPrefix(n, "closure:")) {
+				alts = append(alts, sEq(sApp("closurefn", x.S), fmt.Sprint(c.provIDs[n])))
+			}
+		}
+		if len(alts) == 0 {
+			return &Val{K: VScalar, T: boolT, S: "false"}
+		}
+		return &Val{K: VScalar, T: boolT, S: sOr(alts...)}
 	case "has":
 		// has(m, k): key k is present in map m
 		m, k := arg(0), arg(1)
